@@ -1,6 +1,6 @@
 """C07 - Every output format encodes the same derivation.
 
-(a) correspondence: the Coq encoder models of coq/Fmt.v (auto_extended, conll + dependency column, json, the batch
+(a) correspondence: the Coq encoder models of coq/Fmt.v, FmtDeriv.v (auto_extended, conll + dependency column, json, deriv, the batch
     assembly / numbering of to_string, xml_of, to_jigg_xml, to_prolog_*, to_mathml) against the real encoders, exactly.
 (b) oracle (harness/fmt_oracle.py + fmt_dec.py): independent readers of all eleven formats decode what the real
     encoders print and are compared with the derivation that was encoded.
@@ -18,7 +18,7 @@ from depccg.cat import Category
 
 PRE = '''From Coq Require Import List NArith ZArith Bool Arith.
 Import ListNotations.
-Require Import Cat CatFacts Tree Fmt.
+Require Import Cat CatFacts Tree Fmt FmtDeriv.
 Open Scope N_scope.
 Definition otext_eqb (a b : option text) : bool := match a, b with Some x, Some y => text_eqb x y | None, None => true | _, _ => false end.
 Fixpoint list_eqb {A : Type} (e : A -> A -> bool) (a b : list A) : bool :=
@@ -63,8 +63,11 @@ Definition ChkDecAx (t : tree) (e : option text) : bool :=
   match e with Some line => oview_eqb tok5_eqb (dec_autox line) (view_autox t) | None => match view_autox t with None => true | Some _ => false end end.
 Definition ChkDecJson (t : tree) (e : jvalue) (readable : bool) : bool :=
   if readable then oview_eqb token_eqb (dec_json e) (view_json t) else true.
-Definition ChkTree (t : tree) (ax conll : option text) (deps : option (list nat)) (j : jvalue) (readable : bool) : list bool :=
-  [ChkAx t ax; ChkConll t conll; ChkDeps t deps; ChkJson t j; ChkDecAx t ax; ChkDecJson t j readable].
+Definition ChkDeriv (t : tree) (e : option text) : bool :=
+  otext_eqb (print_deriv t) e &&
+  match deriv_struct t with Some (cells, lines) => oview_eqb text_eqb (dec_deriv cells lines) (view_deriv t) | None => match e with None => true | _ => false end end.
+Definition ChkTree (t : tree) (ax conll : option text) (deps : option (list nat)) (j : jvalue) (readable : bool) (dv : option text) : list bool :=
+  [ChkAx t ax; ChkConll t conll; ChkDeps t deps; ChkJson t j; ChkDecAx t ax; ChkDecJson t j readable; ChkDeriv t dv].
 Definition all_true (l : list bool) : bool := forallb (fun b => b) l.
 (* one batch; a record = (score as '%.8f', score as repr, tree) *)
 Definition recs_a (b : list (list (text * text * tree))) : list (list (text * tree)) := map (map (fun r => (fst (fst r), snd r))) b.
@@ -143,6 +146,7 @@ def run(ctx):
     from depccg.printer.auto import auto_extended_of
     from depccg.printer.conll import conll_of, _resolve_dependencies
     from depccg.printer.my_json import json_of
+    from depccg.printer.deriv import deriv_of
     rng = ctx.rng
     ctx.build(['P_C07.vo'])
     ctx.theorems('P_C07')
@@ -167,8 +171,9 @@ def run(ctx):
         deps = attempt(_resolve_dependencies, t)
         deps = None if deps is None else [d + 1 for d in deps]
         js = json_of(t)
-        tree_cases.append(f'all_true (ChkTree {gtree(t)} {gtext_opt(ax)} {gtext_opt(co)} {gopt(deps, lambda d: glist(d, gnat))} {gj(js)} {gbool(readable)})')
-        tree_descr.append({'lang': lang, 'kind': kind, 'tree': repr(gen.tree_sig(t))[:1500], 'gallina': (gtree(t), gtext_opt(ax), gtext_opt(co), gopt(deps, lambda d: glist(d, gnat)), gj(js), gbool(readable))})
+        dv = attempt(deriv_of, t)
+        tree_cases.append(f'all_true (ChkTree {gtree(t)} {gtext_opt(ax)} {gtext_opt(co)} {gopt(deps, lambda d: glist(d, gnat))} {gj(js)} {gbool(readable)} {gtext_opt(dv)})')
+        tree_descr.append({'lang': lang, 'kind': kind, 'tree': repr(gen.tree_sig(t))[:1500], 'gallina': (gtree(t), gtext_opt(ax), gtext_opt(co), gopt(deps, lambda d: glist(d, gnat)), gj(js), gbool(readable), gtext_opt(dv))})
         ctx.count(f'corr_tree:{lang}:{kind}')
 
     def add_batch(batch, lang):
@@ -234,10 +239,10 @@ def run(ctx):
     bad = ctx.coq_cases('trees', PRE, tree_cases, chunk=60, describe=lambda i: {k: v for k, v in tree_descr[i].items() if k != 'gallina'})
     if bad:
         # which sub-check disagrees
-        names = ['print_autox', 'print_conll', 'deps_of', 'enc_json', 'dec_autox on the real line', 'dec_json on the real dict']
+        names = ['print_autox', 'print_conll', 'deps_of', 'enc_json', 'dec_autox on the real line', 'dec_json on the real dict', 'print_deriv / dec_deriv']
         for i in bad[:5]:
             g = tree_descr[i]['gallina']
-            sub = ctx.coq_cases(f'trees_detail_{i}', PRE, [f'nth {k} (ChkTree {" ".join(g)}) false' for k in range(6)])
+            sub = ctx.coq_cases(f'trees_detail_{i}', PRE, [f'nth {k} (ChkTree {" ".join(g)}) false' for k in range(7)])
             ctx.notes.append(f'model/implementation disagreement on {tree_descr[i]["kind"]} tree {tree_descr[i]["tree"][:300]}: ' + ', '.join(names[k] for k in (sub or [])))
     bb = ctx.coq_cases('batches', PRE, [f'all_true ({c})' for c in batch_cases], chunk=12, describe=lambda i: batch_descr[i])
     for i in (bb or [])[:3]:
@@ -250,7 +255,7 @@ def run(ctx):
         ctx.obligation(f'oracle: records of format {f} were decoded and compared ({ctx.stats.get("decoded:" + f, 0)})', ok,
                        'too few records decoded - the encoder raised (C19) or the reader was skipped')
 
-    ctx.trusted += ['hand-written models coq/Fmt.v of printer/auto.py (auto_extended_of), printer/conll.py, printer/my_json.py and of the batch loops of printer/__init__.py, '
+    ctx.trusted += ['hand-written models coq/Fmt.v, coq/FmtDeriv.v of printer/auto.py (auto_extended_of), printer/conll.py, printer/my_json.py, printer/deriv.py and of the batch loops of printer/__init__.py, '
                     'xml.py, jigg_xml.py, prolog.py, html.py (tied by the correspondence cases of this run: exact strings / ordered dicts / numbers)',
                     'translator translate/gen_tables.py (denormalize tables, puncts, cat_split class)',
                     'json.dumps / json.loads, lxml serialisation and html.parser (library text round trips)',
